@@ -391,121 +391,258 @@ func flowRule(c *core.Ctx) {
 		}
 	}
 	c.Decide(winOK, "C09-FLOW", "Build#winner", pos, "result = sorted[0].Result()", "the result is not element 0 of the slice that was sorted")
-	// fallback only when the filtered list is empty and no UCS-2 candidate
-	fbOK := false
-	for _, r := range results {
-		if before(sortCall, r) {
-			continue
-		}
-		// the fallback Result(): its block must be dominated by `len(filtered) == 0` and `!hasUcs2`
-		p := prover.New(build)
-		emptyFact, ucsFact := false, false
-		for _, f := range p.FactsAt(r.Block()) {
-			if filter != nil {
-				d := f.L.Add(p.LenOf(filter).Scale(-1), -1)
-				if d.IsConst() && d.C == 0 && !f.NE { // -len >= 0
-					emptyFact = true
-				}
-			}
-		}
-		for x := r.Block(); x != nil; x = x.Idom() {
-			d := x.Idom()
-			if d == nil {
-				break
-			}
-			if ifi, ok := d.Instrs[len(d.Instrs)-1].(*ssa.If); ok {
-				// the flag is a boolean phi carried by the candidate loop (set when a candidate equals the UCS-2 coding)
-				if ph, ok := ifi.Cond.(*ssa.Phi); ok && d.Succs[1].Dominates(x) {
-					if b, ok := ph.Type().Underlying().(*types.Basic); ok && b.Kind() == types.Bool {
-						for _, l := range p.Loops() {
-							if l.Header == ph.Block() {
-								ucsFact = true
-							}
-						}
-					}
-				}
-			}
-		}
-		if emptyFact && ucsFact {
-			fbOK = true
-		}
-	}
-	c.Decide(fbOK, "C09-FLOW", "Build#fallback", pos, "UCS-2 fallback only when nothing encoded and UCS-2 was not among the candidates", "the UCS-2 fallback is not guarded by `no candidate encoded` and `UCS-2 was not a candidate`")
-	// the flag consulted by the fallback is set exactly when a candidate EQUALS a UCS-2 coding
-	{
-		ok, why := false, "no loop-carried boolean flag found"
-		pv := prover.New(build)
+	// fallback only when the filtered list is empty and no UCS-2 candidate. The fallback encoder may be built in Build itself
+	// or in an unexported method that Build calls on that path (the flag then travels as an argument).
+	newEncFn := c.Prog.SSAFunc(c.Prog.LookupFunc("", "newBatchEncoder"))
+	pvBuild := prover.New(build)
+	inLoopOf := func(pv *prover.F, b *ssa.BasicBlock) bool {
 		for _, l := range pv.Loops() {
-			for _, ins := range l.Header.Instrs {
-				ph, isPhi := ins.(*ssa.Phi)
-				if !isPhi {
-					break
+			if l.Blocks[b] {
+				return true
+			}
+		}
+		return false
+	}
+	fallbackSites := func(fn *ssa.Function) []*ssa.Call {
+		var out []*ssa.Call
+		pv := prover.New(fn)
+		for _, b := range fn.Blocks {
+			if inLoopOf(pv, b) {
+				continue
+			}
+			for _, ins := range b.Instrs {
+				if call, ok := ins.(*ssa.Call); ok && newEncFn != nil && call.Call.StaticCallee() == newEncFn {
+					out = append(out, call)
 				}
-				if bt, isB := ph.Type().Underlying().(*types.Basic); !isB || bt.Kind() != types.Bool {
+			}
+		}
+		return out
+	}
+	fr := build          // the function that builds the fallback encoder
+	var frCall *ssa.Call // the call of fr in Build (nil when fr == Build)
+	if len(fallbackSites(build)) == 0 {
+		for _, b := range build.Blocks {
+			for _, ins := range b.Instrs {
+				call, ok := ins.(*ssa.Call)
+				if !ok || call.Call.StaticCallee() == nil {
 					continue
 				}
-				ok, why = true, ""
-				for i, pred := range l.Header.Preds {
-					e := ph.Edges[i]
-					if !l.Blocks[pred] {
-						if k, isK := e.(*ssa.Const); !isK || k.Value == nil || constant.BoolVal(k.Value) {
-							ok, why = false, "the flag does not start as false"
+				cal := call.Call.StaticCallee()
+				if cal.Pkg == build.Pkg && cal.Object() != nil && !cal.Object().Exported() && len(cal.Blocks) > 0 && len(fallbackSites(cal)) > 0 {
+					fr, frCall = cal, call
+				}
+			}
+		}
+	}
+	// the value that says "UCS-2 was among the candidates": a loop-carried flag of Build, or the result of a helper over the candidates
+	var flag ssa.Value
+	flagWhy := "no flag found"
+	emptyAt := func(b *ssa.BasicBlock) bool {
+		if filter == nil {
+			return false
+		}
+		for _, f := range pvBuild.FactsAt(b) {
+			d := f.L.Add(pvBuild.LenOf(filter).Scale(-1), -1)
+			if d.IsConst() && d.C == 0 && !f.NE { // -len >= 0
+				return true
+			}
+		}
+		return false
+	}
+	// guardedByNot(fn, b): the bool values v such that b is reached only over the false edge of `if v`
+	guardedByNot := func(b *ssa.BasicBlock) []ssa.Value {
+		var out []ssa.Value
+		for x := b; x != nil && x.Idom() != nil; x = x.Idom() {
+			d := x.Idom()
+			ifi, ok := d.Instrs[len(d.Instrs)-1].(*ssa.If)
+			if !ok || d.Succs[0] == d.Succs[1] {
+				continue
+			}
+			viaTrue, viaFalse := viaEdge(d, x)
+			cond := ifi.Cond
+			if u, ok := cond.(*ssa.UnOp); ok && u.Op == token.NOT {
+				cond = u.X
+				viaFalse, viaTrue = viaTrue, viaFalse
+			}
+			if viaFalse {
+				out = append(out, cond)
+			}
+		}
+		return out
+	}
+	fbOK := false
+	sites := fallbackSites(fr)
+	if len(sites) > 0 {
+		fbOK = true
+		for _, site := range sites {
+			nots := guardedByNot(site.Block())
+			var f ssa.Value
+			if fr == build {
+				if !emptyAt(site.Block()) {
+					fbOK = false
+				}
+				for _, v := range nots {
+					if bt, ok := v.Type().Underlying().(*types.Basic); ok && bt.Kind() == types.Bool {
+						if _, isPhi := v.(*ssa.Phi); isPhi {
+							f = v
+						} else if call, isCall := v.(*ssa.Call); isCall && call.Call.StaticCallee() != nil {
+							f = v
 						}
-						continue
 					}
-					// latch value: phi [prev, true-under-equality]
-					inner, isPhi := e.(*ssa.Phi)
-					if !isPhi {
-						ok, why = false, "the flag is not updated by `if candidate == UCS2 { flag = true }`"
-						continue
-					}
-					for j, ip := range inner.Block().Preds {
-						ev := inner.Edges[j]
-						if ev == ssa.Value(ph) {
-							continue
-						}
-						k, isK := ev.(*ssa.Const)
-						if !isK || k.Value == nil || !constant.BoolVal(k.Value) {
-							ok, why = false, "the flag is assigned something other than true"
-							continue
-						}
-						// ip is the `then` block: its single predecessor tests equality and ip is the true successor
-						if len(ip.Preds) != 1 {
-							ok, why = false, "the assignment is not directly under one test"
-							continue
-						}
-						tb := ip.Preds[0]
-						ifi, isIf := tb.Instrs[len(tb.Instrs)-1].(*ssa.If)
-						cond, isBo := (ssa.Value)(nil), false
-						var bo *ssa.BinOp
-						if isIf {
-							cond = ifi.Cond
-							bo, isBo = cond.(*ssa.BinOp)
-						}
-						if !isIf || !isBo || bo.Op != token.EQL || tb.Succs[0] != ip {
-							ok, why = false, "the flag is set on a path where the candidate is NOT established to equal the UCS-2 coding"
-							continue
-						}
-						var kc *ssa.Const
-						for _, side := range []ssa.Value{bo.X, bo.Y} {
-							if mi, isMI := side.(*ssa.MakeInterface); isMI {
-								kc, _ = mi.X.(*ssa.Const)
-							}
-						}
-						if kc == nil {
-							ok, why = false, "the candidate is not compared with a coding constant"
-							continue
-						}
-						if n, isN := kc.Type().(*types.Named); isN {
-							if m := c.Prog.SSAFunc(c.Prog.LookupMethod("datacoding", n.Obj().Name(), "ToUint8")); m != nil {
-								kv, _ := constInt(kc)
-								if _, num, isConst, _ := evalEnum(m, kv); !isConst || num != 8 {
-									ok, why = false, fmt.Sprintf("the constant compared (%s %d) is not a UCS-2 coding (wire number 8)", n.Obj().Name(), kv)
-								}
+				}
+			} else {
+				if frCall == nil || !emptyAt(frCall.Block()) {
+					fbOK = false
+				}
+				for _, v := range nots {
+					if prm, isP := v.(*ssa.Parameter); isP {
+						for i, q := range fr.Params {
+							if q == prm && frCall != nil && i < len(frCall.Call.Args) {
+								f = frCall.Call.Args[i]
 							}
 						}
 					}
 				}
+			}
+			if f == nil {
+				fbOK = false
+			} else if flag == nil {
+				flag = f
+			} else if flag != f {
+				fbOK = false
+			}
+		}
+	}
+	c.Decide(fbOK && flag != nil, "C09-FLOW", "Build#fallback", pos, "UCS-2 fallback only when nothing encoded and UCS-2 was not among the candidates", "the UCS-2 fallback is not guarded by `no candidate encoded` and `UCS-2 was not a candidate`")
+	// the flag consulted by the fallback is set exactly when a candidate EQUALS a UCS-2 coding
+	{
+		// isUCS2Const: a coding constant whose wire number is 8
+		isUCS2Const := func(v ssa.Value) (bool, string) {
+			mi, ok := v.(*ssa.MakeInterface)
+			if !ok {
+				return false, "the candidate is not compared with a coding constant"
+			}
+			kc, ok := mi.X.(*ssa.Const)
+			if !ok {
+				return false, "the candidate is not compared with a coding constant"
+			}
+			if n, isN := kc.Type().(*types.Named); isN {
+				if m := c.Prog.SSAFunc(c.Prog.LookupMethod("datacoding", n.Obj().Name(), "ToUint8")); m != nil {
+					kv, _ := constInt(kc)
+					if _, num, isConst, _ := evalEnum(m, kv); !isConst || num != 8 {
+						return false, fmt.Sprintf("the constant compared (%s %d) is not a UCS-2 coding (wire number 8)", n.Obj().Name(), kv)
+					}
+					return true, ""
+				}
+			}
+			return false, "the constant compared is not a data coding"
+		}
+		// trueOnlyUnderEq: block b (which yields `true`) is entered only over the true edge of `x == UCS2`
+		trueOnlyUnderEq := func(b *ssa.BasicBlock) (bool, string) {
+			if len(b.Preds) != 1 {
+				return false, "the assignment is not directly under one test"
+			}
+			tb := b.Preds[0]
+			ifi, isIf := tb.Instrs[len(tb.Instrs)-1].(*ssa.If)
+			if !isIf {
+				return false, "the flag is set unconditionally"
+			}
+			bo, isBo := ifi.Cond.(*ssa.BinOp)
+			if !isBo || bo.Op != token.EQL || tb.Succs[0] != b {
+				return false, "the flag is set on a path where the candidate is NOT established to equal the UCS-2 coding"
+			}
+			for _, side := range []ssa.Value{bo.X, bo.Y} {
+				if ok, _ := isUCS2Const(side); ok {
+					return true, ""
+				}
+			}
+			_, why := isUCS2Const(bo.Y)
+			return false, why
+		}
+		ok, why := false, flagWhy
+		switch fv := flag.(type) {
+		case *ssa.Phi:
+			ok, why = true, ""
+			var loop *prover.Loop
+			for _, l := range pvBuild.Loops() {
+				if l.Header == fv.Block() {
+					loop = l
+				}
+			}
+			if loop == nil {
+				ok, why = false, "the flag is not carried by the candidate loop"
+				break
+			}
+			for i, pred := range loop.Header.Preds {
+				e := fv.Edges[i]
+				if !loop.Blocks[pred] {
+					if k, isK := e.(*ssa.Const); !isK || k.Value == nil || constant.BoolVal(k.Value) {
+						ok, why = false, "the flag does not start as false"
+					}
+					continue
+				}
+				inner, isPhi := e.(*ssa.Phi)
+				if !isPhi {
+					ok, why = false, "the flag is not updated by `if candidate == UCS2 { flag = true }`"
+					continue
+				}
+				for j, ip := range inner.Block().Preds {
+					ev := inner.Edges[j]
+					if ev == ssa.Value(fv) {
+						continue
+					}
+					k, isK := ev.(*ssa.Const)
+					if !isK || k.Value == nil || !constant.BoolVal(k.Value) {
+						ok, why = false, "the flag is assigned something other than true"
+						continue
+					}
+					if o, w := trueOnlyUnderEq(ip); !o {
+						ok, why = false, w
+					}
+				}
+			}
+		case *ssa.Call:
+			// a helper over the candidates: returns true exactly under `candidate == UCS2`, false after the loop
+			h := fv.Call.StaticCallee()
+			if h == nil || h.Pkg != build.Pkg || len(h.Blocks) == 0 {
+				why = "the flag is the result of a call that is not a helper of this package"
+				break
+			}
+			ok, why = true, ""
+			nTrue, nFalse := 0, 0
+			for _, b := range h.Blocks {
+				ret, isR := b.Instrs[len(b.Instrs)-1].(*ssa.Return)
+				if !isR || len(ret.Results) != 1 {
+					continue
+				}
+				k, isK := ret.Results[0].(*ssa.Const)
+				if !isK || k.Value == nil || k.Value.Kind() != constant.Bool {
+					ok, why = false, "the helper returns a computed value"
+					continue
+				}
+				if constant.BoolVal(k.Value) {
+					nTrue++
+					if o, w := trueOnlyUnderEq(b); !o {
+						ok, why = false, w
+					}
+				} else {
+					nFalse++
+				}
+			}
+			if nTrue == 0 || nFalse == 0 {
+				ok, why = false, "the helper does not return both true (found) and false (not found)"
+			}
+			// it must look at the same candidate set that Build iterates
+			sameSet := false
+			for _, b := range build.Blocks {
+				for _, ins := range b.Instrs {
+					if rg, isRg := ins.(*ssa.Range); isRg && len(fv.Call.Args) > 0 && rg.X == fv.Call.Args[len(fv.Call.Args)-1] {
+						sameSet = true
+					}
+				}
+			}
+			if !sameSet {
+				ok, why = false, "the helper is not applied to the candidate set that Build iterates"
 			}
 		}
 		c.Decide(ok, "C09-FLOW", "Build#ucs2-flag", pos, "flag := false; set to true exactly under `candidate == UCS2`", why)
@@ -514,8 +651,9 @@ func flowRule(c *core.Ctx) {
 	{
 		var problems []string
 		n := 0
-		newEnc := c.Prog.SSAFunc(c.Prog.LookupFunc("", "newBatchEncoder"))
-		pv := prover.New(build)
+		protosSeen := map[string]bool{}
+		newEnc := newEncFn
+		pv := prover.New(fr)
 		inAnyLoop := func(b *ssa.BasicBlock) bool {
 			for _, l := range pv.Loops() {
 				if l.Blocks[b] {
@@ -524,7 +662,7 @@ func flowRule(c *core.Ctx) {
 			}
 			return false
 		}
-		for _, b := range build.Blocks {
+		for _, b := range fr.Blocks {
 			if inAnyLoop(b) {
 				continue
 			}
@@ -576,8 +714,7 @@ func flowRule(c *core.Ctx) {
 					if pk == nil || !isProto {
 						continue
 					}
-					viaTrue := id.Succs[0] == d || id.Succs[0].Dominates(d)
-					viaFalse := id.Succs[1] == d || id.Succs[1].Dominates(d)
+					viaTrue, viaFalse := viaEdge(id, d)
 					if (bo.Op == token.EQL && viaTrue && !viaFalse) || (bo.Op == token.NEQ && viaFalse && !viaTrue) {
 						// name of the protocol constant
 						if pn, isN := pk.Type().(*types.Named); isN && pn.Obj().Pkg() != nil {
@@ -590,6 +727,9 @@ func flowRule(c *core.Ctx) {
 					}
 				}
 				kv, _ := constInt(kc)
+				if proto != "" {
+					protosSeen[proto] = true
+				}
 				switch {
 				case proto == "":
 					problems = append(problems, "the fallback at "+c.Prog.Pos(call.Pos())+" is not under a test that establishes the request's protocol")
@@ -613,6 +753,18 @@ func flowRule(c *core.Ctx) {
 		}
 		if n == 0 {
 			problems = append(problems, "no fallback encoder construction found")
+		}
+		// every protocol the request can name has a fallback
+		if root := c.Prog.Pkg(""); root != nil {
+			if tn, ok := root.Types.Scope().Lookup("Protocol").(*types.TypeName); ok {
+				for _, nm := range root.Types.Scope().Names() {
+					if kk, isK := root.Types.Scope().Lookup(nm).(*types.Const); isK && types.Identical(kk.Type(), tn.Type()) && !protosSeen[nm] {
+						if c.Prog.SSAFunc(c.Prog.LookupFunc("datacoding", "New"+nm+"Codec")) != nil {
+							problems = append(problems, "protocol "+nm+" has no UCS-2 fallback construction: a "+nm+" request that nothing can encode ends in an error instead of UCS-2")
+						}
+					}
+				}
+			}
 		}
 		c.Decide(len(problems) == 0, "C09-FLOW", "Build#fallback-coding", pos, fmt.Sprintf("%d fallback constructions: UCS-2 (8) of the request's protocol", n), strings.Join(dedup(problems), "; "))
 	}
